@@ -175,9 +175,9 @@ def run(ck):
     # 1. the design
     ck.mc("GlsaVer_MC", cfg_text=f"SPECIFICATION Spec\nCONSTANT Level = {ck.pick(1, 2)}\n" + INVV, workers=4,
           timeout=ck.pick(200, 2000), label=f"MC:GlsaVer_MC Level={ck.pick(1, 2)} (PMS version order)")
-    mv, mu = ck.pick((1, 1), (2, 1))
-    ck.mc("Glsa_MC", cfg_text=f"SPECIFICATION Spec\nCONSTANTS Size = 1\n MaxV = {mv}\n MaxU = {mu}\n" + INVG + ck.pick("", "PROPERTY Monotone\n"),
-          workers=4, timeout=ck.pick(300, 3000), label=f"MC:Glsa_MC MaxV={mv} MaxU={mu}")
+    for mv, mu, small, prop in ck.pick([(1, 1, "TRUE", "")], [(1, 1, "FALSE", ""), (2, 1, "TRUE", ""), (1, 1, "TRUE", "PROPERTY Monotone\n")]):
+        ck.mc("Glsa_MC", cfg_text=f"SPECIFICATION Spec\nCONSTANTS Size = 1\n MaxV = {mv}\n MaxU = {mu}\n Small = {small}\n" + INVG + prop,
+              workers=4, timeout=ck.pick(300, 3000), label=f"MC:Glsa_MC MaxV={mv} MaxU={mu} Small={small}")
     ck.exhaustive = False
     # 2. spec -> code
     cases = ck.export("Glsa_Export", cfg_text=f"CONSTANT Size = {size}\n", timeout=900)
